@@ -401,6 +401,14 @@ fn strings(tier: &str, r: &mut Lcg) -> Vec<String> {
     for t in ["\u{0661}\u{0662}", "\u{ff11}\u{ff12}", "\u{0967}", "1\u{200b}2", "\u{feff}12", "12\u{0}", "\u{0}12", "1\t", "\n1", "1_0", "0b1", "0o7", "1,0", "٣"] {
         out.push(t.to_string());
     }
+    // white space and line ends around a numeral (a lenient parser trims them; `digits only` does not)
+    for ws in [" ", "\t", "\n", "\r", "\r\n", "\u{b}", "\u{c}", "\u{a0}", "\u{2003}", "\u{feff}", "\0"] {
+        for num in ["5", "+7", "15", "16", "127", "128", "16383", "16384", "0"] {
+            out.push(format!("{num}{ws}"));
+            out.push(format!("{ws}{num}"));
+            out.push(format!("{ws}{num}{ws}"));
+        }
+    }
     for n in [1usize, 2, 5, 10, 20, 24] {
         for tail in ["0", "7", "15", "16", "127", "128", "16383", "16384"] {
             out.push(format!("{}{}", "0".repeat(n), tail));
